@@ -22,7 +22,8 @@ RULE = {
     "thorough": "batches of length <=4, id reuse <=3, all cuts of 5 entries",
 }
 
-SUBSTRATES = ["CC(=O)O.CO", "CCC(=O)O.CCO", "CC(=O)O.CO", "CC(=O)N.CO"]  # two reactive, one repeated, one look-alike
+# two reactive, the first one again in another spelling (exact repeats arise from sequences with repetition), one look-alike
+SUBSTRATES = ["CC(=O)O.CO", "CCC(=O)O.CCO", "OC.OC(C)=O", "CC(=O)N.CO"]
 RULES_RSMI = [
     "[CH3:1][C:2](=[O:3])[OH:4].[CH3:5][OH:6]>>[CH3:1][C:2](=[O:3])[O:6][CH3:5].[OH2:4]",
     "[CH3:5][OH:6].[CH3:1][C:2](=[O:3])[OH:4]>>[CH3:1][C:2]([OH:3])([OH:4])[O:6][CH3:5]",
@@ -30,8 +31,9 @@ RULES_RSMI = [
 
 
 def graph_sig(g):
-    nodes = sorted((d.get("element"), d.get("charge"), d.get("hcount")) for _, d in g.nodes(data=True))
-    edges = sorted(str(d.get("order")) for _, _, d in g.edges(data=True))
+    # content *as written*: node ids included, so that two spellings of one molecule have different signatures
+    nodes = sorted((v, d.get("element"), d.get("charge"), d.get("hcount")) for v, d in g.nodes(data=True))
+    edges = sorted((min(u, v), max(u, v), str(d.get("order"))) for u, v, d in g.edges(data=True))
     import hashlib
 
     return hashlib.sha1(repr((nodes, edges)).encode()).hexdigest()[:8]
@@ -206,7 +208,7 @@ def check_w1r(case):
     nex = 0
     freeze_heap()
     for inv in (False, True):
-        subs = entries if not inv else ["CC(=O)OC.O", "CCC(=O)OCC.O", "CC(=O)OC.O", "CC(=O)NC.O"][: len(entries)]
+        subs = entries if not inv else [["CC(=O)OC.O", "CCC(=O)OCC.O", "O.COC(C)=O", "CC(=O)NC.O"][i] for i in case["seq"]]
 
         def run(ch):
             seam = ObjectIdSeam(ch)
@@ -350,6 +352,59 @@ def check_w4(w):
     return out
 
 
+# ------------------------------------------------------------------ W3: network expansion, pool replaced by an in-process stand-in
+W3_RULES = [
+    "[C:1][O:2][H:5].[Cl:3][H:4]>>[C:1][Cl:3].[H:4][O:2][H:5]",
+    "[C:1][Cl:2].[N:3][H:4]>>[C:1][N:3].[Cl:2][H:4]",
+    "[CH3:1][C:2](=[O:3])[OH:4].[C:5][OH:6]>>[CH3:1][C:2](=[O:3])[O:6][C:5].[OH2:4]",
+]
+W3_SEEDS = ["CO", "CCO", "CC(C)O", "Cl", "N", "CC(=O)O"]
+
+
+def gen_w3(tier, seed):
+    n = len(W3_SEEDS)
+    for mask in range(1, 2 ** n):
+        seeds = [W3_SEEDS[i] for i in range(n) if mask >> i & 1]
+        if len(seeds) < (4 if tier == "quick" else 2):
+            continue
+        for rules in ([0, 1], [0, 1, 2]) if tier == "quick" else ([0], [0, 1], [1, 0], [0, 1, 2], [2, 1, 0]):
+            yield {"seeds": seeds, "rules": rules}
+
+
+def check_w3(case):
+    from synkit.CRN.DAG import syncrn as sc
+    from mc.seams import VirtualExecutor
+
+    rules = [W3_RULES[i] for i in case["rules"]]
+    fails = []
+    n = 0
+    ntasks = 0
+
+    def snap(G):
+        return (sorted((k, sorted((a, str(b)) for a, b in d.items())) for k, d in G.nodes(data=True)), sorted((u, v, sorted((a, str(b)) for a, b in d.items())) for u, v, d in G.edges(data=True)))
+
+    orig = sc.ProcessPoolExecutor
+    try:
+        for repeats in (2, 3):
+            for frontier in (True, False):
+                crn = sc.SynCRN(rules=rules, repeats=repeats, use_frontier=frontier)
+                ser = snap(crn.build(case["seeds"], parallel=False))
+                ntasks = max(ntasks, len(crn._seen_attempts))
+                for mw in (1, 2, 3, None):
+                    sc.ProcessPoolExecutor = VirtualExecutor
+                    try:
+                        par = snap(sc.SynCRN(rules=rules, repeats=repeats, use_frontier=frontier).build(case["seeds"], parallel=True, max_workers=mw))
+                    finally:
+                        sc.ProcessPoolExecutor = orig
+                    n += 1
+                    if par != ser:
+                        fails.append(Fail("parallel_network_differs", f"repeats={repeats} use_frontier={frontier} max_workers={mw}: {len(par[0])} nodes / {len(par[1])} edges vs {len(ser[0])} / {len(ser[1])}",
+                                          "same network as the serial build", key_extra=f"{repeats},{frontier},{mw}"))
+    finally:
+        sc.ProcessPoolExecutor = orig
+    return Outcome(nontrivial=ntasks > 16, outcome=f"tasks{min(ntasks // 16, 9)}", fails=fails, transitions=n)
+
+
 # ------------------------------------------------------------------ W6/W3: real pools (conformance, free-running)
 def gen_w6(tier, seed):
     yield {"what": "loky_entries"}
@@ -409,6 +464,8 @@ def subchecks(tier, seed):
         Sub("W1_cache_identity", gen_w1, check_w1, key=lambda c: f"{c['seq']}|cache={c['cache']}|inv={c['invert']}", rule=RULE[tier]),
         Sub("W2_batch_cuts", gen_w2, check_w2, key=lambda c: f"{c['mode']}|{c['seq']}|cache={c['cache']}", rule=RULE[tier]),
         Sub("W1r_real_engine", gen_w1r, check_w1r, key=lambda c: f"{c['seq']}|cache={c['cache']}", rule=RULE[tier]),
+        Sub("W3_network_expansion", gen_w3, check_w3, key=lambda c: f"{'+'.join(c['seeds'])}|rules{c['rules']}", rule="every seed subset (quick: >=4 of 6 seeds) x rule lists, repeats 2/3, frontier on/off: "
+            "SynCRN.build(parallel=True, max_workers 1/2/3/default) with the process pool replaced by an in-process stand-in (pickled copies, ordered map) vs the serial build; non-trivial = more than 16 rule applications attempted"),
         Sub("W4_batched_clustering", gen_w4, check_w4, key=lambda c: f"pool{c}", rule=RULE[tier]),
         Sub("W5_validators", gen_w5, check_w5, key=lambda c: c["what"], rule=RULE[tier]),
         Sub("W5b_flag_history", gen_w5b, check_w5b, key=lambda c: "orders", rule="AAMValidator.smiles_check on 5 pairs under every rotation (thorough: permutation) of the 4 (method, ignore_aromaticity) settings, each order in a fresh interpreter; answers per setting must not depend on the order"),
